@@ -34,6 +34,30 @@ def build_sharded(workdir, cfg, stored, salt, legacy=False, cs=4):
     return d, sizes, rec
 
 
+def build_multiscale(workdir, cfgs, stored_lists, salt, cs=4):
+    """One sharded dataset with SEVERAL scales (keys s0, s1, ...), each written by
+    the real writer with its own grid / bit triple.  Returns (dir, [sizes per scale])."""
+    base, all_sizes = None, []
+    for k, (cfg, stored) in enumerate(zip(cfgs, stored_lists)):
+        d, sizes, rec = build_sharded(workdir, cfg, stored, salt + k, cs=cs)
+        all_sizes.append(sizes)
+        if base is None:
+            base = d
+            continue
+        with open(os.path.join(d, "info")) as f:
+            sc = json.load(f)["scales"][0]
+        sc["key"] = "s%d" % k
+        sc["resolution"] = [2 ** k] * 3
+        with open(os.path.join(base, "info")) as f:
+            info = json.load(f)
+        info["scales"].append(sc)
+        with open(os.path.join(base, "info"), "w") as f:
+            json.dump(info, f)
+        shutil.move(os.path.join(d, sd.KEY), os.path.join(base, "s%d" % k))
+        shutil.rmtree(d, ignore_errors=True)
+    return base, all_sizes
+
+
 def build_plain(workdir, layout, gz, grid, salt, cs=4):
     """Plain dataset written by the real FileAccessor (flat or deep, gzip or not)."""
     from neuroglancer_scripts import file_accessor as fa
@@ -51,7 +75,7 @@ def build_plain(workdir, layout, gz, grid, salt, cs=4):
     return d, sizes, stored
 
 
-def local_read(d, target, coords):
+def local_read(d, target, coords, key=None):
     from neuroglancer_scripts import accessor
     with contextlib.redirect_stdout(io.StringIO()):
         acc = accessor.get_accessor_for_url(d)
@@ -59,7 +83,7 @@ def local_read(d, target, coords):
             if target == "info":
                 b = acc.fetch_file("info")
             else:
-                b = acc.fetch_chunk(sd.KEY, coords)
+                b = acc.fetch_chunk(key or sd.KEY, coords)
             return {"st": "ok", "data": list(b)}
         except Exception as e:
             return {"st": "exc", "data": [], "cls": type(e).__name__}
@@ -100,7 +124,9 @@ def http_session(server, url, steps):
     out = []
     acc = None
     acc_class = "none"
-    for k, (target, coords, script) in enumerate(steps):
+    for k, step in enumerate(steps):
+        target, coords, script = step[:3]
+        key = step[3] if len(step) > 3 else sd.KEY
         server.arm(script)
         try:
             if acc is None:
@@ -109,7 +135,7 @@ def http_session(server, url, steps):
             if target == "info":
                 b = acc.fetch_file("info")
             else:
-                b = acc.fetch_chunk(sd.KEY, coords)
+                b = acc.fetch_chunk(key, coords)
             res = {"st": "ok", "data": list(b), "cls": ""}
         except Exception as e:
             res = {"st": "exc", "data": [], "cls": type(e).__name__}
